@@ -35,9 +35,10 @@ class YState:
     conds: list[str] = field(default_factory=list)
     notes: list[str] = field(default_factory=list)
     done: bool = False
+    skip: bool = False   # 'continue' was executed: the rest of the current loop body is skipped on this path
 
     def copy(self) -> "YState":
-        return YState(self.env.copy(), self.count, dict(self.sizes), list(self.conds), list(self.notes), self.done)
+        return YState(self.env.copy(), self.count, dict(self.sizes), list(self.conds), list(self.notes), self.done, self.skip)
 
 
 class YieldCounter:
@@ -47,6 +48,8 @@ class YieldCounter:
         self.n = Lin.sym("n")
         self.assume_n_ge_k = assume_n_ge_k
         self.assumptions: list[str] = []
+        self.hooks: list = []   # extra call models for the environment (e.g. helper inlining for a concrete class)
+        self.assume_hooks: list = []
 
     # ------------------------------------------------------------------ entry
     def run(self) -> list[YState]:
@@ -57,6 +60,8 @@ class YieldCounter:
         if self.pop_name is not None and self.assume_n_ge_k:
             f.add_ge(self.n, self.k)
         env = Env(f)
+        env.hooks.extend(self.hooks)
+        env.assume_hooks.extend(self.assume_hooks)
         env.vars[self.k_name] = self.k
         st = YState(env, Lin.c(0))
         if self.pop_name is not None:
@@ -163,7 +168,7 @@ class YieldCounter:
         for s in stmts:
             nxt: list[YState] = []
             for st in states:
-                if st.done:
+                if st.done or st.skip:
                     nxt.append(st)
                 else:
                     nxt.extend(self.stmt(s, st))
@@ -204,10 +209,22 @@ class YieldCounter:
                     else:
                         env.vars[t.id] = Opaque("non-numeric")
                 elif isinstance(t, ast.Tuple):
-                    for el in t.elts:
-                        if isinstance(el, ast.Name):
-                            env.vars[el.id] = Opaque("unpacked")
-                            st.sizes.pop(el.id, None)
+                    done_dm = False
+                    if isinstance(s.value, ast.Call) and call_name(s.value) == "divmod" and len(s.value.args) == 2 and len(t.elts) == 2 \
+                            and all(isinstance(el, ast.Name) for el in t.elts) and isinstance(s.value.args[1], ast.Constant) \
+                            and isinstance(s.value.args[1].value, int) and s.value.args[1].value > 0:
+                        a_, d_ = s.value.args
+                        q = evaluate(env, ast.copy_location(ast.BinOp(left=a_, op=ast.FloorDiv(), right=d_), s.value))
+                        av = evaluate(env, a_)
+                        if isinstance(q, Lin) and isinstance(av, Lin):
+                            env.vars[t.elts[0].id] = q
+                            env.vars[t.elts[1].id] = av - q.scale(d_.value)
+                            done_dm = True
+                    if not done_dm:
+                        for el in t.elts:
+                            if isinstance(el, ast.Name):
+                                env.vars[el.id] = Opaque("unpacked")
+                                st.sizes.pop(el.id, None)
             return [st]
         if isinstance(s, ast.AnnAssign) and isinstance(s.target, ast.Name) and s.value is not None:
             return self.stmt(ast.copy_location(ast.Assign(targets=[s.target], value=s.value), s), st)
@@ -254,9 +271,12 @@ class YieldCounter:
         if isinstance(s, (ast.FunctionDef, ast.AsyncFunctionDef, ast.ClassDef, ast.Pass, ast.Assert, ast.Import,
                           ast.ImportFrom, ast.Global, ast.Nonlocal, ast.Delete)):
             return [st]
-        if isinstance(s, (ast.Break, ast.Continue)):
-            st.notes.append("break/continue")
-            st.count = Opaque("break/continue in a counted region")
+        if isinstance(s, ast.Continue):
+            st.skip = True
+            return [st]
+        if isinstance(s, ast.Break):
+            st.notes.append("break")
+            st.count = Opaque("break in a counted region")
             return [st]
         return [st]
 
@@ -287,7 +307,10 @@ class YieldCounter:
         probe.conds = []
         for k, v in extra_vars.items():
             probe.env.vars[k] = v
-        return self.block(body, [probe])
+        out = self.block(body, [probe])
+        for r in out:
+            r.skip = False
+        return out
 
     def counters(self, st: YState) -> dict[str, Lin]:
         return {k: v for k, v in st.env.vars.items() if isinstance(v, Lin) and k != self.k_name}
@@ -382,6 +405,40 @@ class YieldCounter:
                             st.count = self.add(st.count, times.scale(inner[0].count.const))
                             env.vars[idx_name] = m - Lin.c(1)
                             return [st]
+        # general index-guard idiom (guard clauses, nested ifs): for some bound K compared with the index, every path of the
+        # body either runs under idx <= K-1 with one constant effect, or under idx >= K with no effect
+        if idx_name and idx_sym is not None:
+            cands = []
+            for b_ in s.body:
+                for c_ in ast.walk(b_):
+                    if isinstance(c_, ast.Compare) and len(c_.ops) == 1:
+                        for side, other in ((c_.left, c_.comparators[0]), (c_.comparators[0], c_.left)):
+                            if isinstance(side, ast.Name) and side.id == idx_name:
+                                v = evaluate(env, other)
+                                if isinstance(v, Lin):
+                                    cands += [v, v + Lin.c(1)]
+            for K in cands:
+                inb, outb, okc = [], [], True
+                for cnt, dc, r in effects:
+                    fx = r.env.facts
+                    if entails_ge0(fx, K - Lin.c(1) - idx_sym):
+                        inb.append((cnt, dc))
+                    elif entails_ge0(fx, idx_sym - K):
+                        outb.append((cnt, dc))
+                    else:
+                        okc = False
+                if not okc or not inb:
+                    continue
+                if all(c == inb[0][0] and d == inb[0][1] for c, d in inb) and inb[0][0].is_const() and all(d.is_const() for d in inb[0][1].values()) \
+                        and all(c == Lin.c(0) and all(d == Lin.c(0) for d in dd.values()) for c, dd in outb):
+                    times = self.amin(env, m, K) if entails_ge0(env.facts, K) else None
+                    if isinstance(times, Lin):
+                        st.count = self.add(st.count, times.scale(inb[0][0].const))
+                        for kname, d in inb[0][1].items():
+                            if d.const != 0:
+                                env.vars[kname] = before[kname] + times.scale(d.const)
+                        env.vars[idx_name] = m - Lin.c(1)
+                        return [st]
         st.count = Opaque("loop body yields a path-dependent number of items")
         return [st]
 
